@@ -10,15 +10,16 @@ STUBS_B = ['stdio: in-memory model file system', 'cpuid: no SIMD features (scala
 FIND = 'F-SCHEMA-NODE-LEVELS'
 
 
-def tree(n, rows=0, thrift=0, levels_only=0, timeout=900, exclude=FIND, tag='', rootkids=0, symtypes=None):
+def tree(n, rows=0, thrift=0, levels_only=0, timeout=900, exclude=FIND, tag='', rootkids=0, symtypes=None, kid1=None):
     if symtypes is None: symtypes = 0 if rows else 1
     if rootkids: tag += '/root%s%d' % ('=' if rootkids > 0 else '>=', abs(rootkids))
+    if kid1: tag += '/n1kids%d-%d' % kid1
     if not symtypes and not rows: tag += '/types-fixed'
     nm = 'reader/tree-n%d%s%s%s%s' % (n, '/pages' if rows else '', '/thrift' if thrift else '', '/level-accessors' if levels_only else '', tag)
-    d = ['-DVS_MODE=1', '-DVS_N=%d' % n, '-DVS_ROWS=%d' % rows, '-DVS_THRIFT=%d' % thrift, '-DVS_LEVELS_ONLY=%d' % levels_only, '-DVS_ROOTKIDS=%d' % rootkids, '-DVS_SYMTYPES=%d' % symtypes] + REFDEFS
+    d = ['-DVS_MODE=1', '-DVS_N=%d' % n, '-DVS_ROWS=%d' % rows, '-DVS_THRIFT=%d' % thrift, '-DVS_LEVELS_ONLY=%d' % levels_only, '-DVS_ROOTKIDS=%d' % rootkids, '-DVS_SYMTYPES=%d' % symtypes] + (['-DVS_KID1_MIN=%d' % kid1[0], '-DVS_KID1_MAX=%d' % kid1[1]] if kid1 else []) + REFDEFS
     b = ('every depth-first element list of %d nodes (root + %d) that encodes a tree: num_children of every node symbolic 0..%d (all ordered tree shapes, depth <= %d), repetition of every non-root node symbolic in '
          '{REQUIRED, OPTIONAL, REPEATED}%s, root with and without repetition_type (n < 6), %s, type_length symbolic 1..60, STRING / DECIMAL logical types at fixed positions%s; %s; checked: %s'
-         % (n, n - 1, n - 1, n - 1, (' [this obligation: trees whose root has %s %d children]' % ('exactly' if rootkids > 0 else 'at least', abs(rootkids))) if rootkids else '',
+         % (n, n - 1, n - 1, n - 1, ((' [this obligation: trees whose root has %s %d children' % ('exactly' if rootkids > 0 else 'at least', abs(rootkids))) + ((' and whose element 1 has %d..%d children' % kid1) if kid1 else '') + ']') if rootkids else '',
             'physical type of every leaf symbolic 0..7' if symtypes else 'physical types a fixed mix by position (all eight occur)',
             ', long-form field headers and unknown fields in SchemaElement' if thrift else '',
             'one row group of 2 records, every chunk one page of 2..3 levels written with the textbook maxima' if rows else 'no row group',
@@ -56,8 +57,8 @@ def obligations(tier):
         o.append(tree(6, rootkids=k, symtypes=0 if q else 1, timeout=1400 if q else 3000))
     if not q:
         # 7 nodes: 132 shapes x 3^6 labelings
-        for k in (1, 2, 3, -4):
-            o.append(tree(7, rootkids=k, symtypes=0, timeout=3400))
+        for k, k1 in [(1, (1, 1)), (1, (2, 2)), (1, (3, 6)), (2, (0, 0)), (2, (1, 1)), (2, (2, 6)), (3, None), (-4, None)]:
+            o.append(tree(7, rootkids=k, kid1=k1, symtypes=0, timeout=3400))
         o.append(tree(6, rows=1, timeout=3400))
     o.append(tree(4, rows=1))
     o.append(tree(5, rows=1, thrift=1))
